@@ -4539,6 +4539,10 @@ class ParameterizedMetaclass(type):
 
             if isinstance(value,Parameter):
                 mcs.__param_inheritance(attribute_name,value)
+                # a Parameter was added or replaced: drop the cached
+                # params() of this class and of its subclasses
+                for subcls in descendents(mcs):
+                    subcls._param__private.params = {}
 
     def __param_inheritance(mcs, param_name, param):
         """
